@@ -42,7 +42,7 @@ ANCHORS = [
     ("deepali.core._kornia", "angle_axis_to_quaternion"),
     ("deepali.core._kornia", "normalize_quaternion"),
 ]
-N_CASES = {"quick": 60, "thorough": 6000}
+N_CASES = {"quick": 60, "thorough": 20000}
 BUDGET = {"quick": 400, "thorough": 3600}
 FORMS = ["translation", "square", "homogeneous"]
 BATCH = ["none", "one", "N"]
